@@ -785,16 +785,16 @@ def main(run):
     try:
         k = run.pick(6, 16)
         args = []
-        files = corpus.select(run, 40, 300)
+        files = corpus.select(run, 40, 260)
         rng = run.rng('files')
         rng.shuffle(files)
         per = run.pick(4, 5)
         for n, chunk in enumerate(core.chunks(files, per)):
             args.append({'kind': 'real', 'index': n, 'files': chunk, 'byte_budget': run.pick(250000, 400000),
                          'max_bytes': run.pick(90000, 160000)})
-        for n in range(run.pick(12, 44)):
+        for n in range(run.pick(12, 40)):
             args.append({'kind': 'gprog', 'index': n, 'target': 200, 'max_cases': 70})
-        for n in range(run.pick(6, 16)):
+        for n in range(run.pick(6, 14)):
             args.append({'kind': 'gclass', 'index': n, 'target': 900, 'max_cases': 14, 'multiattr': 30})
         for a in args:
             a.update({'seed': run.seed, 'tmp': tmp, 'children': k})
